@@ -7,7 +7,8 @@
 (* is accepted iff all its events were consumed.                           *)
 EXTENDS LoaderUser, IOUtils
 
-Traces == JsonDeserialize(IOEnv.VT_TRACES)   \* Seq of [sc |-> scenario, events |-> Seq of event]
+Traces == JsonDeserialize(IOEnv.VT_TRACES)   \* Seq of [sc |-> scenario, mode |-> "C14" | "C15", events |-> Seq of event]
+\* mode C14 does not judge what is retained after a failure nor the follow-up comparison (that is C15)
 \* event = [ev, o, k, s, args: Seq(STRING), refs: Seq(Nat), b, hasst, si: Seq(Nat), ss: Seq(Seq(Nat)), so: Seq(BOOLEAN)]
 
 VARIABLES tid, l
@@ -28,9 +29,10 @@ StateMatches(e) ==
      /\ e.so[i] <=> (instr'[S.user[i]] = 0)
 
 Matches(e) ==
-  /\ ev'.ev = e.ev /\ ev'.o = e.o /\ ev'.k = e.k /\ ev'.s = e.s /\ ev'.b = e.b
+  /\ ev'.ev = e.ev /\ ev'.o = e.o /\ ev'.k = e.k /\ ev'.s = e.s
+  /\ (e.ev = "Follow" /\ Traces[tid].mode = "C14") \/ ev'.b = e.b
   /\ ev'.args = ToSet(e.args) /\ Cardinality(ev'.args) = Len(e.args)
-  /\ ev'.refs = ToSet(e.refs)
+  /\ (e.ev = "Post" /\ Traces[tid].mode = "C14") \/ ev'.refs = ToSet(e.refs)
   /\ e.hasst => StateMatches(e)
 
 TraceNext ==
